@@ -64,6 +64,26 @@ _registry = st.sampled_from(
 )
 
 
+MISSING_KINDS = ("5;1;1;0;0;1\n", "5;1;2;1;0;\n", "5;1;0;0;6;child\n", "5;255;4;0;0;\n", "5;255;3;0;0;50\n", "5;255;3;1;11;name\n", "5;255;3;0;22;1\n", "5;255;3;0;32;1\n")
+BETWEEN = (
+    ["rx", "5;255;0;0;17;2.1\n"], ["rx", "5;255;0;1;18;1.4\n"], ["rx", "5;255;0;0;0;\n"], ["rx", "6;255;0;0;17;2.1\n"], ["rx", "0;255;0;0;18;2.1\n"], ["rx", "0;255;0;0;18;2.2.0\n"],
+    ["rx", "0;255;3;0;2;2.0.1\n"], ["rx", "0;255;3;1;2;2.2\n"], ["rx", "5;1;0;0;6;child\n"], ["rx", "5;255;3;0;6;0\n"], ["rx", "5;255;3;0;1;\n"], ["rx", "5;255;3;0;18;\n"],
+    ["rx", "6;1;1;0;0;1\n"], ["rx", "255;255;3;0;3;\n"], ["rx", "5;7;3;0;3;\n"], ["rx", "0;255;3;0;14;ready\n"], ["rx", "0;255;3;0;9;log\n"], ["rx", "junk\n"],
+    ["rx", "5;255;3;0;19;\n"], ["rx", "5;255;3;0;21;\n"], ["session"], ["sleep", 61], ["sleep", 86400], ["install", 5], ["install", 6],
+)
+
+
+def enumerate_cases(tier: str):
+    """rejected message, ONE event of every kind, rejected message again - per version, with and without a known node."""
+    for version in ("2.0", "2.2", "1.5"):
+        for registry in ({}, {"5": {"children": {"0": {"child_type": 6}}}}):
+            for first in MISSING_KINDS:
+                for between in BETWEEN:
+                    for second in (MISSING_KINDS[0], MISSING_KINDS[4]):
+                        yield {"version": version, "registry": registry, "fail_requests": [], "listen_mode": "persistent" if len(first) % 2 else "fresh",
+                               "ops": [["rx", first], between, ["rx", second], ["rx", "6;9;1;0;0;1\n"]]}
+
+
 def strategy(tier: str):
     return st.fixed_dictionaries(
         {
